@@ -2510,3 +2510,71 @@ func ruleCallAllClauses(c *Ctx, r *Report) {
 	}
 	r.analysed(rule, fname(call))
 }
+
+// ---------------------------------------------------------------------------
+// R-LOAD-POLLS-CTX (C13; added with fix F53): "cancelling the context ... makes the pending call return the
+// context's error within a bounded delay".  Goals are cancelled in the trampoline; storing a clause runs no
+// goal.  A loop that reads clause after clause from a text (a Parser.Term call inside a CFG cycle) in a function
+// that has the context therefore looks at the context itself, inside the loop: an Err() or Done() call on the
+// context parameter lies in a block of the same cycle.
+func ruleLoadPollsCtx(c *Ctx, r *Report) {
+	const rule = "R-LOAD-POLLS-CTX"
+	desc := "the loop that reads the clauses of a text observes the context in every iteration"
+	term := c.method("Parser", "Term")
+	if term == nil {
+		r.undecided(rule, "anchor:Parser.Term", "-", "locate Parser.Term", "not found")
+		return
+	}
+	n := 0
+	for _, fn := range c.LibFuncs() {
+		if funcPkg(fn) != c.Engine {
+			continue
+		}
+		var ctxParam *ssa.Parameter
+		for _, p := range fn.Params {
+			if isNamedIn(p.Type(), "context", "Context") {
+				ctxParam = p
+			}
+		}
+		eachInstr(fn, func(in ssa.Instruction) {
+			call, ok := in.(*ssa.Call)
+			if !ok || call.Call.StaticCallee() != term || !reachableFromSucc(call.Block(), call.Block()) {
+				return
+			}
+			if ctxParam == nil {
+				return // a reader without a context (read_term/3 reads one term per call)
+			}
+			n++
+			key := fname(fn) + "/Parser.Term-in-loop"
+			polled := false
+			eachInstr(fn, func(x ssa.Instruction) {
+				ci, ok := x.(ssa.CallInstruction)
+				if !ok || !ci.Common().IsInvoke() {
+					return
+				}
+				m := ci.Common().Method.Name()
+				if (m != "Err" && m != "Done") || !isNamedIn(ci.Common().Value.Type(), "context", "Context") {
+					return
+				}
+				fromParam := false
+				for _, l := range c.originSet(ci.Common().Value) {
+					if l == ssa.Value(ctxParam) {
+						fromParam = true
+					}
+				}
+				b := x.Block()
+				if fromParam && (b == call.Block() || (reachableFromSucc(b, call.Block()) && reachableFromSucc(call.Block(), b))) {
+					polled = true
+				}
+			})
+			if polled {
+				r.ok(rule, key, c.at(in), desc, "ctx.Err()/Done() is called inside the loop", true)
+			} else {
+				r.bad(rule, key, c.at(in), desc, "nothing in the loop looks at the context: a text of facts is loaded to its end whatever the deadline, and with a context that is already cancelled")
+			}
+		})
+	}
+	if n == 0 {
+		r.undecided(rule, "scan/reading-loop", "-", desc, "no clause-reading loop with a context found")
+	}
+}
